@@ -418,6 +418,10 @@ class QueryScheduler:
                 <= refresh_time_millis - current.when_millis
                 <= self._min_time_between_queries_millis
             ):
+                # The slot is kept, the rescue queries still have
+                # to follow the TTL and expire time of the refreshed record
+                current.ttl = int(pointer.ttl) if isinstance(pointer.ttl, float) else pointer.ttl
+                current.expire_time_millis = pointer.get_expiration_time(100)
                 return
             current.cancelled = True
             del self._next_scheduled_for_alias[pointer.alias]
